@@ -11,6 +11,8 @@ ASSUMPTIONS = [
     "durations are arbitrary integers >= 0 (z3 Int, unbounded above)",
     "shapes bounded as in coverage.bounds",
     "builtins max/min modelled as If-terms, int() identity on integer terms",
+    "probe variants also send, before every dispatch, every request that must be rejected (ineligible in-range machine, operation not ready) to "
+    "the dispatcher under test and swallow the exception: only accepted requests form the history",
     "probe variants issue public queries (current_time, start_time on every eligible machine, earliest_start_time, ongoing/uncompleted) between dispatches",
     "observed sub-spaces subscribe one of every observer the library ships (history, unscheduled-operations, 7 feature observers + composite, "
     "2 reward observers, residual graph updater) before the first dispatch (numpy facade: float32 rounding outside)",
@@ -115,6 +117,21 @@ def harness(eng, sp):
                 for mm in desc.machines[o]:
                     disp.start_time(D.op_by_id(inst, o), mm)
             disp.min_start_time(disp.unscheduled_operations())
+            if not sp.get("wide"):
+                # requests that are NOT accepted (ineligible in-range machine, operation that is not ready) are not part of the
+                # history: the start times and the bookkeeping after the accepted ones must not depend on them
+                ready_ = set(spec.ready_ops())
+                bad = [(o, mm) for o in sorted(ready_) for mm in range(desc.n_machines) if mm not in desc.machines[o]]
+                bad += [(o, desc.machines[o][0]) for o in range(desc.n_ops) if o not in ready_]
+                for o, mm in bad:
+                    try:
+                        disp.dispatch(D.op_by_id(inst, o), mm)
+                    except D.E.Unsupported:
+                        raise
+                    except Exception:
+                        continue
+                    eng.fail("C02/request-that-must-be-rejected-was-accepted", f"op {o} machine {mm} after {spec.history}")
+                    return
         op, m = D.choose_dispatch(eng, desc, spec)
         lop = D.op_by_id(inst, op)
         expected = spec.forced_start(op, m)
@@ -169,3 +186,8 @@ def harness(eng, sp):
     eng.prove_all([(veq(a, b), "C02/tracking-after-reset-replay") for a, b in
                    zip(list(disp.machine_next_available_time) + list(disp.job_next_available_time),
                        spec.mach_free + spec.job_free)])
+
+
+def big_models(sp):
+    # solver-chosen large models (>= 2**24+1) of the path conditions, run on the un-instrumented library
+    return True
